@@ -79,9 +79,60 @@ class CodeInfo:
         self.extab = []
         for e in dis._parse_exception_table(code):
             self.extab.append((e.start, e.end, off2idx[e.target], e.depth, e.lasti))
+        self._live = None
         self.is_gen = bool(code.co_flags & CO_GENERATOR)
         self.nbops = [x[1] for x in dis._nb_ops]
         self.name = code.co_qualname if hasattr(code, "co_qualname") else code.co_name
+
+    def liveness(self):
+        """live_in[idx] = set of fast-local names that may be read before being written from idx on
+        (exception edges included).  Used to drop dead locals before computing merge keys."""
+        if self._live is not None:
+            return self._live
+        n = len(self.ops)
+        succ = [[] for _ in range(n)]
+        for k, (op, arg, argval) in enumerate(self.ops):
+            nxt = k + 1 if k + 1 < n else None
+            if op in ("RETURN_VALUE", "RETURN_CONST", "RAISE_VARARGS", "RERAISE"):
+                pass
+            elif op in ("JUMP_FORWARD", "JUMP_BACKWARD", "JUMP_BACKWARD_NO_INTERRUPT"):
+                succ[k].append(self.jt[k])
+            elif self.jt[k] is not None:
+                t = self.jt[k]
+                if op == "FOR_ITER":
+                    t = t + 1
+                succ[k].append(t)
+                if nxt is not None:
+                    succ[k].append(nxt)
+            elif nxt is not None:
+                succ[k].append(nxt)
+            h = self.handler(k)
+            if h is not None:
+                succ[k].append(h[0])
+        use = [None] * n
+        dfn = [None] * n
+        for k, (op, arg, argval) in enumerate(self.ops):
+            if op in ("LOAD_FAST", "LOAD_FAST_CHECK", "LOAD_FAST_AND_CLEAR", "DELETE_FAST", "MAKE_CELL"):
+                use[k] = argval
+            if op == "STORE_FAST":
+                dfn[k] = argval
+        live = [frozenset()] * n
+        changed = True
+        while changed:
+            changed = False
+            for k in range(n - 1, -1, -1):
+                out = set()
+                for t in succ[k]:
+                    out |= live[t]
+                if dfn[k] is not None:
+                    out.discard(dfn[k])
+                if use[k] is not None:
+                    out.add(use[k])
+                if len(out) != len(live[k]):
+                    live[k] = frozenset(out)
+                    changed = True
+        self._live = live
+        return live
 
     @classmethod
     def of(cls, code):
